@@ -71,6 +71,11 @@ CHECKS.update({
              text="Generated-input search with the compiler in the loop: ~40 (quick) / ~1200 (thorough) TUs compiled against a conforming library emitted from the model, 770 / 16k TUs checked textually. Cannot show absence.",
              note="Trusted: vlib.cxxmock (the conforming library), g++ 12, the bundled pybind11 headers. Boost serialization output is not compiled (no Boost).", ref="3/C09"),
 })
+CHECKS.update({
+ 'C04': dict(tech="Hypothesis model-based generation (executable profile) + differential execution: the emitted TU is compiled against an instrumented mock library generated from the model, imported in a fresh CPython and driven by a generated call plan; trace and results vs predictions from the model",
+             text="Generated programs are built and run: 32 (quick) / 256 (thorough) modules, every binding called positionally, with each admissible number of defaults omitted and by keyword; entity incl. template arguments, overload signature, this, argument values, defaults, static vs instance, void vs value, const properties, enumerator values and base-class registration are compared with predictions. Cannot show absence.",
+             note="Trusted: vlib.cxxmock (instrumented conforming library), vlib.pyexec (predictions), g++ 12, bundled pybind11, CPython 3.12. Overload sets with overlapping arity ranges are not called (pybind11's resolution).", ref="3/C04"),
+})
 PENDING = {}
 
 def main():
